@@ -360,6 +360,36 @@ theorem exPer_stages :
     ∧ (exPera.basis 0).start < (exPera.basis 0).kn (exPera.basis 0).order := by
   refine ⟨?_, ?_, ?_, ?_, ?_, ?_⟩ <;> decide +kernel
 
+/-! ### Normalised bases of the example objects (kernel-evaluated) -/
+
+theorem exQL_norm :
+    C06.reparamOk (exQ.basis 0) 0 1 = openBasis 3 (clampedU 0 1 [1/3, 1/2, 2/3]) (clampedM 3 [1, 0, 2])
+    ∧ C06.reparamOk (exL.basis 0) 0 1 = openBasis 3 (clampedU 0 1 [1/3, 1/2, 2/3]) (clampedM 3 [0, 1, 0])
+    ∧ C06.reparamOk (exL2.basis 0) 0 1 = openBasis 2 (clampedU 0 1 [1/3, 1/2, 2/3]) (clampedM 2 [0, 1, 0]) := by
+  refine ⟨?_, ?_, ?_⟩ <;> decide +kernel
+
+theorem exS_norm :
+    C06.reparamOk (exSA.basis 0) 0 1 = openBasis 2 (clampedU 0 1 [1/2]) (clampedM 2 [1])
+    ∧ C06.reparamOk (exSB.basis 0) 0 1 = openBasis 2 (clampedU 0 1 [1/2]) (clampedM 2 [0])
+    ∧ C06.reparamOk (exSA.basis 1) 0 1 = openBasis 2 (clampedU 0 1 []) (clampedM 2 [])
+    ∧ C06.reparamOk (exSB.basis 1) 0 1 = openBasis 3 (clampedU 0 1 []) (clampedM 3 [])
+    ∧ exSA.basis 0 = openBasis 2 (clampedU 0 2 [1]) (clampedM 2 [1])
+    ∧ (C06.reparamObj exSA 1 0 1).bases.toList
+        = [openBasis 2 (clampedU 0 2 [1]) (clampedM 2 [1]), openBasis 2 (clampedU 0 1 []) (clampedM 2 [])] := by
+  refine ⟨?_, ?_, ?_, ?_, ?_, ?_⟩ <;> decide +kernel
+
+theorem exP_WF' : exSA.WF ∧ exSB.WF := ⟨⟨by decide, by decide, by decide⟩, ⟨by decide, by decide, by decide⟩⟩
+
+theorem exPer_norm :
+    C06.reparamOk (exSeg.basis 0) 0 1 = openBasis 2 (clampedU 0 1 [1/2]) (clampedM 2 [0])
+    ∧ (match (C06.reparamObj exPer 0 0 1).lowerPeriodic (-1) 0 with
+        | .ok o2 => decide (o2.basis 0 = openBasis 2 (clampedU 0 1 [1/2]) (clampedM 2 [1]))
+        | .error _ => false) = true
+    ∧ (exPer.basis 0).periodic = ((0 : ℕ) : Int)
+    ∧ (exPer.basis 0).order + 0 ≤ (exPer.basis 0).numFunctions
+    ∧ (exPer.basis 0).start < (exPer.basis 0).kn (exPer.basis 0).order := by
+  refine ⟨?_, ?_, ?_, ?_, ?_⟩ <;> decide +kernel
+
 end C12
 
 end Splipy
